@@ -679,7 +679,7 @@ def gen_history(rng, pool, n, versions, heavy):
     mine = rng.sample(light, min(k, len(light)))
     syn = [m['name'] for m in pool['msgs'] if m['cls'] == 'synthetic']
     mine += [x for x in rng.sample(syn, min(len(syn), rng.randint(1, 4))) if x not in mine]
-    if rng.random() < 0.3:
+    if rng.random() < 0.15:
         mine.append(rng.choice(sorted(heavy)))
     jn = [j['name'] for j in pool['jsons']]
     myj = rng.sample(jn, rng.randint(1, 5))
@@ -1012,6 +1012,8 @@ def compare_logs(ctx, logged, hists):
 
 
 def replay(ctx, path):
+    import logging
+    logging.disable(logging.CRITICAL)
     body = json.load(open(path))
     rp = body['replay']
     mp_ctx = multiprocessing.get_context('spawn')
